@@ -146,4 +146,17 @@ theorem tryParseExt_good (c : Cursor) (pl : Nat) (cur : ExtS) (h : c.Inv) :
   · simp only [hb, Bool.not_false, if_true]
     exact .inl ⟨cur, c, rfl, h, Nat.le_refl _, trivial⟩
 
+theorem tryParseExtIf_good (allowed : Bool) (c : Cursor) (pl : Nat) (h : c.Inv) :
+    Good (fun _ _ => True) c (tryParseExtIf allowed c pl) := by
+  unfold tryParseExtIf
+  split
+  · exact tryParseExt_good c pl _ h
+  · exact .inl ⟨_, c, rfl, h, Nat.le_refl _, trivial⟩
+
+theorem readIf_good (on : Bool) (n : Nat) (c : Cursor) (h : c.Inv) : Good (fun x _ => x.length = n) c (readIf on n c) := by
+  unfold readIf
+  split
+  · exact (read_good c n h).mono (Nat.le_refl _) (fun a _ _ _ q => q.1)
+  · exact .inl ⟨_, c, rfl, h, Nat.le_refl _, by simp⟩
+
 end Tins.Wire.Icmp
